@@ -33,6 +33,9 @@ def configs(tier):
          cfg(["a", "a.b"], ["alto", "lines"]),              # id with a dot; kill between ALTO and the crops
          cfg(["a", "b"], ["render", "lines"], nlines=1),
          cfg(["a", "b"], ["render", "logits"]),             # the one pair written in the opposite order to the one consulted
+         # three pages, one id a prefix of another: the order of the ids ('a' < 'a.b') differs from the order of the image
+         # file names ('a.b.png' < 'a.png'), so a resume that pairs ids and images from two differently ordered lists shows
+         cfg(["0", "a", "a.b"], ["xml", "logits"], crashes=1),
          cfg(["a", "b"], ["lines"])]                        # no single-file output: the open known finding
     if tier == "quick":
         return q
